@@ -8,7 +8,9 @@ CONSTANTS N,            \* inputs 1..N
           BatchSize,    \* 0 = no batching
           MinTasks,     \* should_launch_backup min_tasks (10 in the code)
           FixStartTimes,\* model of repair 1: start_times.update instead of rebinding
-          FixTwins      \* model of repair 2: skip a finished twin that has been superseded
+          FixTwins,     \* model of repair 2: skip a finished twin that has been superseded
+          KeepPairing   \* cubed = TRUE: a failed attempt whose twin is still alive stays paired with it.  FALSE (design switch,
+                        \* seed C08-d): the pairing is forgotten, so the survivor may get another backup -> TwoSubmissions
 MaxFut == 2 * N
 Fut == 1..MaxFut
 VARIABLES unsent,    \* inputs not yet submitted (sequence)
@@ -61,7 +63,8 @@ Iter == /\ pc = "iter" /\ queue # <<>>
               /\ queue' = Tail(queue) /\ UNCHANGED <<pc, out, endT, backups, pending, fst, skip>>
            ELSE IF fst[f] = "fail" THEN
               IF HasTwin(f) /\ fst[backups[f]] \in {"run", "ok"}
-              THEN /\ queue' = Tail(queue) /\ UNCHANGED <<pc, out, endT, backups, pending, fst, skip>>   \* continue
+              THEN /\ queue' = Tail(queue) /\ UNCHANGED <<pc, out, endT, pending, fst, skip>>   \* continue
+                   /\ backups' = IF KeepPairing THEN backups ELSE [h \in DOMAIN backups \ {f, backups[f]} |-> backups[h]]
               ELSE /\ pc' = "raised" /\ UNCHANGED <<queue, out, endT, backups, pending, fst, skip>>
            ELSE \* result (a cancelled future cannot be in finished: it was removed from pending first)
               /\ endT' = endT \cup {f}
